@@ -106,6 +106,9 @@ func unitsFor(prop, tier string) []Unit {
 		us = append(us, Unit{Prop: prop, Tier: tier, Kind: "appx", Index: 0, Name: "appx/signals (real binary, SIGINT / SIGTERM)"})
 	case "C14":
 		us = append(us, Unit{Prop: prop, Tier: tier, Kind: "appx", Index: 0, Name: "appx/http-surface (real binary over a socket)"})
+		us = append(us, Unit{Prop: prop, Tier: tier, Kind: "procx", Index: 0, Bin: "race", Name: "procx/C14/concurrent-requests (valid and invalid tokens at once, race build)"})
+	case "C19":
+		us = append(us, Unit{Prop: prop, Tier: tier, Kind: "procx", Index: 0, Bin: "race", Name: "procx/C19/concurrent-writers (12 jobs at once on one file store, race build)"})
 	case "C18":
 		us = append(us, Unit{Prop: prop, Tier: tier, Kind: "procx", Index: 0, Bin: "race", Name: "procx/C18/race-build (same grammar under the race detector)"})
 	case "C13":
